@@ -64,6 +64,13 @@ def userDiv : UserDiv
       | some _ => .error .typeError
       | none => .error .keyError
     | _, _, _ => .error .typeError
+  | "count_state" => some fun v st cfg => match v.view, st, cfg with
+    -- depends on the *names* handed in: how many entries, and the total length of their names
+    | .int m, some (.dict s), none =>
+      let n : Int := s.length
+      let l : Int := (s.map fun kv => (kv.1.length : Int)).foldl (· + ·) 0
+      .ok (some (.int (m + n + 10 * l), .int (m - n)))
+    | _, _, _ => .error .typeError
   | "skip" => some fun _ st cfg => match st, cfg with
     | none, none => .ok none
     | _, _ => .error .typeError
